@@ -330,3 +330,87 @@ func MustFlag_bounds_slice_closurecut(b []byte) [][]byte {
 	}
 	return [][]byte{next(4), next(8)}
 }
+
+// ---- an integer offset that walks the input, advanced through intermediate values (xt/ssa/cursor.go) ----
+
+func MustPass_bounds_slice_offsetwalk(b []byte) [][]byte {
+	var out [][]byte
+	offset := 0
+	for offset < len(b) {
+		remaining := len(b) - offset
+		if remaining < 4 {
+			return nil
+		}
+		n := int(b[offset+2])<<8 | int(b[offset+3])
+		if remaining < 4+n {
+			return nil
+		}
+		start := offset + 4
+		end := start + n
+		out = append(out, b[start:end])
+		offset = end
+	}
+	return out
+}
+
+func MustFlag_bounds_slice_offsetwalk(b []byte) [][]byte {
+	var out [][]byte
+	offset := 0
+	for offset < len(b) {
+		remaining := len(b) - offset
+		if remaining < 4 {
+			return nil
+		}
+		n := int(b[offset+2])<<8 | int(b[offset+3])
+		if remaining < n {
+			return nil
+		}
+		start := offset + 4
+		end := start + n
+		out = append(out, b[start:end])
+		offset = end
+	}
+	return out
+}
+
+// ---- a guard that is a disjunction: either there is nothing to read or the element size is the one read ----
+
+func MustPass_bounds_index_disjguard(b []byte) []uint32 {
+	if len(b) <= 3 {
+		return nil
+	}
+	size := b[1]
+	n := uint16(b[2])<<8 | uint16(b[3])
+	if len(b) < 4+int(size)*int(n) {
+		return nil
+	}
+	if n > 0 && size != 4 {
+		return nil
+	}
+	b = b[4:]
+	var out []uint32
+	for i := 0; i < int(n); i++ {
+		out = append(out, uint32(b[4*i])<<24|uint32(b[4*i+3]))
+	}
+	return out
+}
+
+func MustFlag_bounds_index_disjguard(b []byte) []uint32 {
+	if len(b) <= 3 {
+		return nil
+	}
+	size := b[1]
+	n := uint16(b[2])<<8 | uint16(b[3])
+	if len(b) < 4+int(size)*int(n) {
+		return nil
+	}
+	if n > 1 && size != 4 {
+		return nil
+	}
+	b = b[4:]
+	var out []uint32
+	for i := 0; i < int(n); i++ {
+		out = append(out, uint32(b[4*i])<<24|uint32(b[4*i+3]))
+	}
+	return out
+}
